@@ -372,6 +372,10 @@ package netflow9
 // Dump marshals every shard by reflection: all shards must be read-locked across json.Marshal (C10, C15)
 //@ func (MemCache).Dump
 //@   names m cacheFile _ _ shard b err _ shard
+//@   opt countcalls WriteFile Marshal
+//@   callassert WriteFile: arg0 == cacheFile && sameview(arg1, b)   // the document that was marshalled goes to the file the caller named
+//@   exitassert [written] result == nil ==> calls_WriteFile == old(calls_WriteFile) + 1 && calls_Marshal == old(calls_Marshal) + 1   // a dump that reports success has written the whole document, in one piece (C11: what a restart loads is what was saved)
+//@   names m cacheFile _ _ shard b err _ shard
 //@   requires wellFormed9(m)
 //@   loop 1 @ range m #75a72e05
 //@     acquires m R
